@@ -38,7 +38,7 @@ ASSUMPTIONS = [
 def budget(tier):
     if tier == 'thorough':
         return {'seeds': 60000, 'chunk': 100, 'wall_cap': 1500, 'extra': {'big': True}}
-    return {'seeds': 4000, 'chunk': 50, 'wall_cap': 240, 'extra': None}
+    return {'seeds': 16000, 'chunk': 100, 'wall_cap': 240, 'extra': None}
 
 
 def gen(seed, tier, extra=None):
